@@ -138,3 +138,15 @@ Example C15_daemon_nonvacuous :
   | _ => False
   end.
 Proof. vm_compute. repeat split; try reflexivity. Qed.
+
+(* when the exception `dc_bad` of C15_daemon_streams is raised by the formatting side: exactly when the bytes owed to the
+   client (unsent output + the new reply) exceed MAX_CLIENT_BUF - the "1 MiB" of the property text; cbuf_write then
+   overwrites the oldest unsent bytes (Daemon.cbuf_put, replayed against the real daemon in C04's thorough tier).  The
+   other two causes are on the descriptor side (cli_one): a failed write, bytes after end-of-file. *)
+Theorem C15_overflow_only_beyond_buffer : forall c x,
+  dc_bad (set_dc c x) = dc_bad x || (MAX_CLIENT_BUF <? Z.of_nat (length (dc_to x ++ skipn (length (cl_out (dc x))) (cl_out c)))).
+Proof.
+  intros c x. unfold set_dc, cbuf_put. cbn [dc_bad].
+  destruct (MAX_CLIENT_BUF <? Z.of_nat (length (dc_to x ++ skipn (length (cl_out (dc x))) (cl_out c)))); reflexivity.
+Qed.
+Print Assumptions C15_overflow_only_beyond_buffer.
